@@ -160,6 +160,28 @@ TRIVIA_VALUES = [True, False, 'all', 'block', 'none', 'all+', 'block+1', 'none-'
                  ('none', 'all+1'), ('block', 'none'), ('none', 'line')]
 
 
+def gen_trivia(rng):
+    """A trivia option value drawn from the whole documented grammar."""
+    if rng.random() < 0.4:
+        return rng.choice(TRIVIA_VALUES)
+
+    def part(lead):
+        r = rng.random()
+        if r < 0.12:
+            return rng.choice([True, False])
+        if r < 0.18:
+            return rng.randrange(0, 12)  # a line number
+        base = rng.choice(['all', 'block', 'none', ''] if lead else ['all', 'block', 'none', 'line', ''])
+        suf = rng.choice(['', '', '+', '-', '+1', '+2', '-1', '-2', '+3'])
+        return (base + suf) or ('block' if lead else 'line')
+    r = rng.random()
+    if r < 0.25:
+        return part(True)
+    if r < 0.35:
+        return (part(False),)
+    return (part(True), part(False))
+
+
 def gen_options(rng, rate=0.5, allow=None):
     """Options that never disable parenthesization or normalization (C01 precondition)."""
     o = {}
@@ -184,7 +206,7 @@ def gen_options(rng, rate=0.5, allow=None):
     keys = sorted(table) if allow is None else sorted(allow)
     for k in keys:
         if rng.random() < 0.18:
-            o[k] = rng.choice(table[k])
+            o[k] = gen_trivia(rng) if k == 'trivia' else rng.choice(table[k])
     return o
 
 
